@@ -976,6 +976,42 @@ fn run_stream<K: Kind>(st: &mut Stream, stream: &str, rng: &mut Rng, n_random: u
     }
 }
 
+/// WIDE frames: "every channel count" — 255, 256, 257 and 300 channels through from_interleaved_samples_iter,
+/// into_interleaved_samples (next_sample and the iterator), until_exhausted and channels() (oracle only)
+fn wide_frames(st: &mut Stream, rng: &mut Rng) {
+    macro_rules! wide { ($n:expr) => { {
+        const N: usize = $n;
+        for frames in [0usize, 1, 3] { for extra in [0usize, 1, N - 1] {
+            let samples: Vec<i16> = (0..frames * N + extra).map(|i| (i as i16).wrapping_mul(3) ^ (rng.range(0, 3) as i16)).collect();
+            let case = format!("{} channels, {} complete frames + {} trailing samples of i16", N, frames, extra);
+            mark(0, &case);
+            let r = guarded(|| {
+                let sig = signal::from_interleaved_samples_iter::<_, [i16; N]>(samples.clone().into_iter());
+                let a: Vec<i16> = sig.into_interleaved_samples().into_iter().take(frames * N + 2 * N).collect();
+                let mut inter = signal::from_interleaved_samples_iter::<_, [i16; N]>(samples.clone().into_iter()).into_interleaved_samples();
+                let mut b = Vec::new(); for _ in 0..frames * N + N { b.push(inter.next_sample()); }
+                let c: Vec<[i16; N]> = signal::from_interleaved_samples_iter::<_, [i16; N]>(samples.clone().into_iter()).until_exhausted().take(frames + 2).collect();
+                let d: Vec<usize> = c.iter().map(|f| f.channels().count()).collect();
+                (a, b, c, d)
+            });
+            st.count("wide_frames_255_to_300_channels");
+            match r {
+                None => st.oracle_fail("panic with a wide frame type", &case, "no panic", "panic"),
+                Some((a, b, c, d)) => {
+                    let want = &samples[..frames * N];
+                    // `into_iter()` over an exhausted source: exactly frames x channels samples, then None for good
+                    let ok_a = a == want;
+                    let ok_b = b.iter().take(frames * N).map(|x| x.unwrap_or(i16::MIN)).eq(want.iter().cloned()) && b[frames * N..].iter().all(|x| x.is_none());
+                    let ok_c = c.len() == frames && c.iter().enumerate().all(|(k, f)| f[..] == want[k * N..(k + 1) * N]) && d.iter().all(|&k| k == N);
+                    if ok_a && ok_b && ok_c { st.oracle_ok((frames * N) as u64 + 1); }
+                    else { st.oracle_fail("wide frames: interleaved-sample output must yield exactly frames x channels samples in channel order before None; until_exhausted exactly the complete frames; channels() all channels", &case, &format!("{} samples", frames * N), &format!("into_iter: {} samples ({}), next_sample ok: {}, until_exhausted/channels ok: {} ({} frames)", a.len(), ok_a, ok_b, ok_c, c.len())); }
+                }
+            }
+        } }
+    } } }
+    wide!(255); wide!(256); wide!(257); wide!(300);
+}
+
 /// Exhaustion through a FORK: a branch may report `is_exhausted()` only when no frame remains for it — neither queued
 /// by the other branch nor in the source; and `until_exhausted` on a lagging branch still delivers every frame it is
 /// owed (oracle only; both branch kinds, every lag within the capacity)
@@ -1029,7 +1065,7 @@ fn main() {
     run_stream::<[i64; 2]>(&mut st, &stream, &mut rng, n / 2, w, d, None);
     run_stream::<[u64; 2]>(&mut st, &stream, &mut rng, n / 2, w, d, None);
     // call-site resolution: every adaptor method on the concrete type of every other adaptor (see typed.rs)
-    if stream == "exhaust" { fork_exhaustion(&mut st, &mut rng); }
+    if stream == "exhaust" { fork_exhaustion(&mut st, &mut rng); wide_frames(&mut st, &mut rng); }
     if stream == "adapt" {
         let rounds = if t { 300 } else { 40 };
         typed::stereo_i16::run_all(&mut st, &mut rng, rounds);
